@@ -152,6 +152,9 @@ Definition cbc_enc_sem (C : cipher) (args : list val) : option (val * list val) 
 (* core::mem::replace(dest, src): returns the old *dest, *dest := src *)
 Definition replace_sem (args : list val) : option (val * list val) :=
   match args with [x; y] => Some (x, [y; y]) | _ => None end.
+(* core::mem::swap(a, b) *)
+Definition swap_sem (args : list val) : option (val * list val) :=
+  match args with [x; y] => Some (VUnit, [y; x]) | _ => None end.
 
 Definition eenv (enc : bool) (al : bool) (i o : list N) : env :=
   [("cipher", VCipher enc (negb enc)); ("self", VStruct "Closure" [("buf", VBuf al i o)])].
